@@ -25,6 +25,9 @@ def model_validate(ex, n, awaited, recv):
 def type_adapter_new(ex, n, awaited, recv=None):
     T = coerce(ex.eval(n.args[0]), ANY)
     if ex.choice([None, None], 'TypeAdapter(T) constructible?') == 1:
+        # no schema can be built for T: then pydantic accepts no value for T at all
+        v = z3.Const('v!schema', Ref)
+        ex.assume(z3.ForAll([v], z3.Not(validates_ok(T.term, v)), patterns=[validates_ok(T.term, v)]))
         raise RaiseSig(ex.fresh_exc('Exception', base='schema_error'), 'TypeAdapter')
     return V(PY, py=('typeadapter', T))
 
